@@ -91,3 +91,9 @@ PROPS['C03']={
   {'name':'basic_seq2','module':'harness.C03','cls':'Rules','tier_only':'thorough','quick':{},'thorough':{'group':'basic','seq':2,'rate':2000}},
   {'name':'match_seq2','module':'harness.C03','cls':'Rules','tier_only':'thorough','quick':{},'thorough':{'group':'match','seq':2,'rate':2000}},
  ]}
+
+PROPS['C10']={
+ 'bounds_statement':'cjson::canonicalize / convert / Value::write from MIR on serde_json::Value trees of bounded shape with symbolic leaves (string/key bytes, u64/i64 numbers, booleans); the output is parsed by an independent strict RFC 8259 reader and compared with the input; any Float must be rejected.',
+ 'assumptions':UNIT_ASSUME+['serde_json::to_string on a string modelled from serde_json\'s documented escaping (short escapes, \\u00XX for other controls, everything else verbatim)','itoa modelled relationally (digits d_i with sum d_i*10^i = n, no leading zero); serde_json::Number::{as_i64,as_u64} and Map iteration (BTreeMap order) modelled',
+                            'text -> Value (serde_json parser: whitespace, escape spellings, duplicate members) is outside the claim'],
+ 'obligations':[{'name':'canonicalize','module':'harness.C10','cls':'Canon','quick':{'maxlen':2},'thorough':{'maxlen':3}}]}
